@@ -136,6 +136,24 @@ def gen_clsren(rng):
     return sc
 
 
+def gen_jockey(rng):
+    """reneging customers jockey to another node (user-defined router); optionally pre-emptive priorities"""
+    K = rng.choice([1, 2])
+    sc = {"N": 2, "K": K,
+          "nodes": [{"c": rng.choice([1, 1, 2]), "qcap": INF}, {"c": rng.choice([1, 2]), "qcap": rng.choice([INF, INF, 1])}],
+          "arrS": [[samples(rng, 1, 3, 2) for _ in range(K)], [(samples(rng, 1, 4, 2) if rng.random() < 0.5 else []) for _ in range(K)]],
+          "svcS": [[samples(rng, 2, 7, 2) for _ in range(K)], [samples(rng, 1, 5, 2) for _ in range(K)]],
+          "patS": [[samples(rng, 0, 4, 2) for _ in range(K)], [[] for _ in range(K)]],
+          "prio": list(range(K)), "T": rng.randint(12, 35)}
+    routers = [{"t": "leave", "jock": 2}, {"t": "leave"}]
+    if rng.random() < 0.5:
+        routers[0] = {"t": "direct", "to": 2, "jock": 2}
+    sc["route"] = [{"kind": "nr", "routers": copy.deepcopy(routers)} for _ in range(K)]
+    if K == 2 and rng.random() < 0.5:
+        sc["nodes"][0]["pp"] = rng.choice([1, 2, 3])     # (pre-emption + reneging: open finding F8 may taint)
+    return sc
+
+
 def gen_renege(rng):
     K = rng.choice([1, 2])
     sc = gen_tandem(rng, N=rng.choice([1, 2]), K=K)
@@ -612,6 +630,7 @@ def gen_stopcount(rng):
 FAMILIES = {
     "stopcount": gen_stopcount,
     "trk": gen_trk,
+    "jockey": gen_jockey,
     "mix": gen_mix,
     "fault": gen_fault,
     "ps": gen_ps,
